@@ -27,6 +27,7 @@ func checkC05(c *Ctx) {
 	c.checkIntersect()
 	c.checkMutationProtocol()
 	c.checkOwnerNoticeOrder()
+	c.checkDeltaSides()
 }
 
 func (c *Ctx) checkModeTables() {
